@@ -219,6 +219,45 @@ func (t *SymbolTable) Resolve(name string) (*Resolution, bool) {
 	}
 }
 
+// symbolTableState records how far a table has grown.
+type symbolTableState struct {
+	symbols  int
+	children int
+	free     int
+}
+
+func (t *SymbolTable) state() symbolTableState {
+	return symbolTableState{symbols: len(t.symbols), children: len(t.children), free: len(t.free)}
+}
+
+// restore drops the symbols, child tables and free variables that were added
+// since the state was taken. Names are removed by the identity of their symbol:
+// a variable declared in a nested block claims an index in this table without
+// being named here, and may have the same name as an older variable that is.
+func (t *SymbolTable) restore(s symbolTableState) {
+	dropped := map[*Symbol]bool{}
+	for _, sym := range t.symbols[s.symbols:] {
+		dropped[sym] = true
+	}
+	for name, sym := range t.symbolsByName {
+		if dropped[sym] {
+			delete(t.symbolsByName, name)
+		}
+	}
+	t.symbols = t.symbols[:s.symbols]
+	t.children = t.children[:s.children]
+	kept := map[*Resolution]bool{}
+	for _, rs := range t.free[:s.free] {
+		kept[rs] = true
+	}
+	for name, rs := range t.freeByName {
+		if !kept[rs] {
+			delete(t.freeByName, name)
+		}
+	}
+	t.free = t.free[:s.free]
+}
+
 // Parent returns the parent table of this table, if any.
 func (t *SymbolTable) Parent() *SymbolTable {
 	return t.parent
